@@ -26,6 +26,7 @@ import (
 	"github.com/anishathalye/porcupine"
 	"pgregory.net/rapid"
 
+	"verif/harness/refmatch"
 	"verif/harness/vlib"
 )
 
@@ -378,7 +379,10 @@ func c12ExecNoisy(loc *core.Location, in c12In, noise *schedNoise) c12Out {
 			code := "for (var i = 0; i < 40; i++) { o['k' + i] = i; } o.n = 2; '" + in.V + "'"
 			rule = M{"when": M{"pattern": M{"go": "1", "obj": "?o"}}, "actions": A{M{"code": code}, M{"code": code}}}
 		} else if in.Env {
-			rule["action"] = M{"code": "Env.AddFact('made_' + ruleId, {made: '" + in.V + "'}); '" + in.V + "'"}
+			// (the script keeps writing to what it has handed over: the
+			// fact is what it was when it was added)
+			rule["when"] = M{"pattern": M{"go": "1", "obj": "?o"}}
+			rule["action"] = M{"code": "Env.AddFact('made_' + ruleId, {made: '" + in.V + "', obj: o}); o.n = 5; o.later = true; '" + in.V + "'"}
 		}
 		_, err := loc.AddRule(ctx, in.Id, core.Map(rule))
 		return c12Out{Err: errStr(err)}
@@ -590,6 +594,12 @@ func runC12Once(c c12Case, o *vlib.Outcome) *vlib.Outcome {
 			json.Unmarshal([]byte(js), &sm)
 			if fmt.Sprint(sm["v"]) != fmt.Sprint(f["v"]) || fmt.Sprint(sm["made"]) != fmt.Sprint(f["made"]) {
 				o.Fail("MEMORY_STORAGE_DIVERGE", "[%s] after the workload id %q has v=%v in memory but v=%v in storage", c.Kind, id, f["v"], sm["v"])
+				return o
+			}
+			// the whole content (what a script did to its object after
+			// it had added it as a fact is not part of the fact)
+			if !refmatch.Equal(refmatch.Canon(map[string]interface{}(f)), refmatch.Canon(map[string]interface{}(sm)), true) {
+				o.Fail("MEMORY_STORAGE_DIVERGE", "[%s] after the workload id %q is %s in memory but %s in storage", c.Kind, id, vlib.JSON(map[string]interface{}(f)), js)
 				return o
 			}
 		}
